@@ -338,8 +338,8 @@ func init() {
 		"(*sync.Mutex).Unlock":  lockOp(false),
 		"(*sync.RWMutex).Lock":  lockOp(true),
 		"(*sync.RWMutex).Unlock": lockOp(false),
-		"(*sync.RWMutex).RLock":   lockOp(true),
-		"(*sync.RWMutex).RUnlock": lockOp(false),
+		"(*sync.RWMutex).RLock":   rlockOp(true),
+		"(*sync.RWMutex).RUnlock": rlockOp(false),
 		"(*sync.Mutex).TryLock": func(e *Engine, fr *Frame, args []Value) (Value, bool) { return smt.True, true },
 		"(*sync.Once).Do": func(e *Engine, fr *Frame, args []Value) (Value, bool) {
 			p := args[0].(Ptr)
@@ -415,7 +415,12 @@ func (s Slice) withLen(e *Engine, n int) Slice {
 	return Slice{Arr: Ptr{Obj: id}, Len: n, Cap: n}
 }
 
-func lockOp(acquire bool) handler {
+func lockOp(acquire bool) handler  { return lockOpMode(acquire, false) }
+func rlockOp(acquire bool) handler { return lockOpMode(acquire, true) }
+
+// lockOpMode: a lock held in shared (read) mode is recorded with a negative key; two accesses are
+// protected by a common lock only if at least one of them holds it exclusively (see commonLock).
+func lockOpMode(acquire, shared bool) handler {
 	return func(e *Engine, fr *Frame, args []Value) (Value, bool) {
 		p := args[0].(Ptr)
 		if p.IsNil() {
@@ -424,6 +429,9 @@ func lockOp(acquire bool) handler {
 		}
 		st := e.st
 		key := p.Obj*1000 + pathHash(p.Path)
+		if shared {
+			key = -key
+		}
 		if acquire {
 			st.heldLocks = append(append([]int(nil), st.heldLocks...), key)
 		} else {
